@@ -146,7 +146,66 @@ fn predicate_run(ctx: &mut Ctx, bytes: &[u8], tag: &str) {
     }
 }
 
+/// every opcode reached directly with boundary operands: a prologue loads boundary values into registers
+/// 0x10..0x17, then the instruction under test runs with those registers / boundary immediates, then `ret $one`
+fn opcode_boundaries(ctx: &mut Ctx) {
+    use fuel_asm::op;
+    let per_op = ctx.n(5, 40);
+    for row in instr_gen::TABLE {
+        for v in 0..per_op {
+            let mut code: Vec<Instruction> = vec![op::gtf_args(0x17, RegId::ZERO, fuel_asm::GTFArgs::ScriptData)];
+            if ctx.rng.chance(1, 2) { code.push(op::movi(0x16, 3)); code.push(op::flag(0x16)); }
+            if ctx.rng.chance(1, 3) { code.push(op::cfei(64)); }
+            if ctx.rng.chance(1, 3) { code.push(op::movi(0x16, 64)); code.push(op::aloc(0x16)); }
+            for r in 0x10u8..0x17 {
+                match ctx.rng.below(14) {
+                    0 => code.push(op::move_(r, RegId::ZERO)),
+                    1 => code.push(op::move_(r, RegId::ONE)),
+                    2 => code.push(op::not(r, RegId::ZERO)),                                   // u64::MAX
+                    3 => { code.push(op::not(r, RegId::ZERO)); code.push(op::srli(r, r, 1)); }  // 2^63-1
+                    4 => { code.push(op::movi(r, 1)); code.push(op::slli(r, r, 63)); }          // 2^63
+                    5 => { code.push(op::movi(r, 1)); code.push(op::slli(r, r, 26)); }          // VM_MAX_RAM
+                    6 => { code.push(op::movi(r, 1)); code.push(op::slli(r, r, 26)); code.push(op::subi(r, r, *ctx.rng.pick(&[1u16, 7, 8, 31, 32, 33]))); }
+                    7 => code.push(op::move_(r, RegId::SP)),
+                    8 => code.push(op::move_(r, RegId::SSP)),
+                    9 => code.push(op::move_(r, RegId::HP)),
+                    10 => code.push(op::move_(r, RegId::IS)),
+                    11 => code.push(op::addi(r, 0x17, (ctx.rng.below(12) * 32) as u16)),      // pointers into the script data
+                    12 => code.push(op::movi(r, *ctx.rng.pick(&[2u32, 7, 8, 9, 32, 33, 64, 255, 256, 4096, 262143]))),
+                    _ => code.push(op::movi(r, (ctx.rng.word() & 0x3ffff) as u32)),
+                }
+            }
+            let args: Vec<u32> = row.2.iter().map(|k| if *k == 0 {
+                if ctx.rng.chance(1, 8) { *ctx.rng.pick(&[0u32, 1, 2, 3, 4, 5, 6, 7, 9, 10, 12, 15, 63]) } else { 0x10 + ctx.rng.below(8) as u32 }
+            } else {
+                let max = (1u32 << *k) - 1;
+                let rnd = (ctx.rng.next() as u32) & max;
+                *ctx.rng.pick(&[0u32, 1, 2, max, max - 1, max / 2, rnd])
+            }).collect();
+            let Some(ins) = instr_gen::construct(row.0, &args) else { continue };
+            code.push(ins);
+            code.push(op::ret(RegId::ONE));
+            let bytes: Vec<u8> = code.into_iter().collect();
+            let seed = ctx.rng.next();
+            let mut knobs = g::Knobs::normal(); knobs.unlisted_pm = 200;
+            let tag = format!("boundary op={} v={v} args={args:?} seed={seed:#x}", row.1);
+            match ctx.guard(|| g::gen_case(&mut crate::ctx::Rng(seed), knobs, 50_000, Some(bytes.clone()))) {
+                Err(_) => ctx.count("boundary.rejected-by-builder"),
+                Ok(case) => {
+                    let mut vm: Vm = case.fresh_vm();
+                    let r = ctx.guard(|| vm.transact(case.ready()).map(|_| ()).map_err(|e| g::err_name(&e)));
+                    let reached = vm.receipts().iter().all(|r| !matches!(r, fuel_tx::Receipt::Panic { .. }));
+                    ctx.count(if reached { "boundary.completed" } else { "boundary.vm-panic" });
+                    classify(ctx, &tag, "boundary", r);
+                    ctx.distinct(&bytes);
+                }
+            }
+        }
+    }
+}
+
 pub fn run(ctx: &mut Ctx) {
+    opcode_boundaries(ctx);
     // (1) cost sampling: unmutated generated programs, default schedule, single-stepped
     let m = ctx.n(120, 1200);
     for i in 0..m {
